@@ -325,6 +325,18 @@ def run(ctx, body, paths):
 
 
 def step(ctx, s, path):
+    if isinstance(s, ast.If) and any(isinstance(n, ast.NamedExpr) for n in ast.walk(s.test)):
+        w = Walrus()
+        test = w.visit(copy.deepcopy(s.test))
+        return run(ctx, w.pre + [ast.If(test=test, body=s.body, orelse=s.orelse)], [path])
+    val = getattr(s, 'value', None)
+    if isinstance(s, (ast.Return, ast.Assign, ast.Expr)) and isinstance(val, ast.IfExp):
+        # v = A if c else B   ==   if c: v = A / else: v = B
+        def with_value(v):
+            c = copy.copy(s)
+            c.value = v
+            return c
+        return step(ctx, ast.If(test=val.test, body=[with_value(val.body)], orelse=[with_value(val.orelse)]), path)
     if isinstance(s, ast.Return):
         if s.value is None:
             return [path.fork(out=('return', None))]
@@ -375,18 +387,11 @@ def step(ctx, s, path):
             need(False, 'loop target ' + ast.unparse(s.target))
         body = block_text(ctx, s.body, env)
         return [path.fork(trace=path.trace + ('for item in %s %s' % (show(ctx, path.env, uncopy(s.iter)), body),))]
+    if isinstance(s, (ast.Try, ast.With)) and guarded_delete(s) is not None:
+        # try: del o.x / except AttributeError: pass  ==  with suppress(AttributeError): del o.x
+        #                                             ==  if hasattr(o, 'x'): del o.x
+        return step(ctx, guarded_delete(s), path)
     if isinstance(s, ast.Try):
-        tb = clean_body(s.body)
-        if len(tb) == 1 and isinstance(tb[0], ast.Delete) and len(tb[0].targets) == 1 \
-                and isinstance(tb[0].targets[0], ast.Attribute) and isinstance(tb[0].targets[0].value, ast.Name) \
-                and len(s.handlers) == 1 and s.handlers[0].type is not None \
-                and ast.unparse(s.handlers[0].type) == 'AttributeError' and not clean_body(s.handlers[0].body) \
-                and not clean_body(s.orelse) and not clean_body(s.finalbody):
-            # try: del o.x / except AttributeError: pass   ==   if hasattr(o, 'x'): del o.x
-            t = tb[0].targets[0]
-            test = ast.Call(func=ast.Name(id='hasattr', ctx=ast.Load()),
-                            args=[t.value, ast.Constant(value=t.attr)], keywords=[])
-            return step(ctx, ast.If(test=test, body=tb, orelse=[]), path)
         parts = ['try ' + block_text(ctx, s.body, path.env)]
         for h in s.handlers:
             parts.append('except %s %s' % (show(ctx, {}, h.type) if h.type else '*', block_text(ctx, h.body, path.env)))
@@ -403,6 +408,38 @@ def step(ctx, s, path):
     if isinstance(s, (ast.FunctionDef, ast.AsyncFunctionDef)):
         return [path]
     raise Unsupported('C09 facts: statement ' + type(s).__name__)
+
+
+def guarded_delete(s):
+    body = clean_body(s.body)
+    if not (len(body) == 1 and isinstance(body[0], ast.Delete) and len(body[0].targets) == 1
+            and isinstance(body[0].targets[0], ast.Attribute) and isinstance(body[0].targets[0].value, ast.Name)):
+        return None
+    if isinstance(s, ast.Try):
+        ok = len(s.handlers) == 1 and s.handlers[0].type is not None \
+            and ast.unparse(s.handlers[0].type) == 'AttributeError' and not clean_body(s.handlers[0].body) \
+            and not clean_body(s.orelse) and not clean_body(s.finalbody)
+    else:
+        c = s.items[0].context_expr if len(s.items) == 1 else None
+        ok = isinstance(c, ast.Call) and ast.unparse(c.func) in ('suppress', 'contextlib.suppress') \
+            and [ast.unparse(a) for a in c.args] == ['AttributeError'] and s.items[0].optional_vars is None
+    if not ok:
+        return None
+    t = body[0].targets[0]
+    test = ast.Call(func=ast.Name(id='hasattr', ctx=ast.Load()), args=[t.value, ast.Constant(value=t.attr)], keywords=[])
+    return ast.If(test=test, body=body, orelse=[])
+
+
+class Walrus(ast.NodeTransformer):
+    """(x := E) inside a test: the binding is done first, the test reads x"""
+
+    def __init__(self):
+        self.pre = []
+
+    def visit_NamedExpr(self, node):
+        self.generic_visit(node)
+        self.pre.append(ast.Assign(targets=[ast.Name(id=node.target.id, ctx=ast.Store())], value=node.value))
+        return ast.Name(id=node.target.id, ctx=ast.Load())
 
 
 def normalise_trace(ctx, trace):
@@ -531,7 +568,7 @@ def linear(tree, cls, name):
     return normal_form(tree, cls, name, roles), roles
 
 
-def paths_of(tree, cls_name, fn_name, roles, fn=None):
+def paths_of(tree, cls_name, fn_name, roles, fn=None, bound=None):
     """the paths of a function after normalisation: [(conditions dict, effects list, outcome)]"""
     cls = class_node(tree, cls_name) if cls_name else None
     ctx = Ctx(tree, cls, roles)
@@ -540,6 +577,8 @@ def paths_of(tree, cls_name, fn_name, roles, fn=None):
     for k, a in enumerate(x.arg for x in fn.args.args):
         if not (k == 0 and a in ('self', 'cls')):
             env[a] = ast.Name(id='p%d' % k, ctx=ast.Load())
+    for a, v in (bound or {}).items():
+        env[a] = v
     out = []
     for p in run(ctx, clean_body(fn.body), [Path(env=env)]):
         o = p.out
@@ -559,8 +598,17 @@ def check_server(tree, checked):
     rel = 'grpclib/server.py'
     roles = check_table(tree, rel, 'Server', SERVER, checked)         # A0 = the handlers collection
     # _protocol_factory: a GC step, then a new Handler joins the handlers collection and is given to the protocol
-    ps = paths_of(tree, 'Server', '_protocol_factory', roles)
-    need(len(ps) == 1, '_protocol_factory branches')
+    # the protocol factory is the method Server.start() hands to the loop (whatever its private name)
+    names = set()
+    for c in ast.walk(func_node(tree, 'start', 'Server')):
+        if isinstance(c, ast.Call) and isinstance(c.func, ast.Attribute) and c.func.attr in ('create_server', 'create_unix_server'):
+            a = c.args[0] if c.args else None
+            need(isinstance(a, ast.Attribute) and isinstance(a.value, ast.Name) and a.value.id == 'self',
+                 'Server.start: protocol factory argument ' + ast.unparse(c)[:80])
+            names.add(a.attr)
+    need(len(names) == 1, 'Server.start: one protocol factory: %r' % names)
+    ps = paths_of(tree, 'Server', names.pop(), roles)
+    need(len(ps) == 1, 'protocol factory branches')
     _, eff, o = ps[0]
     hv = [e.split(' = ')[0] for e in eff if ' = Handler(' in e]
     need(eff[0] == 'self.__gc_step__()' and len(hv) == 1 and 'self.A0.add(%s)' % hv[0] in eff
@@ -610,6 +658,22 @@ def check_server(tree, checked):
     checked.append(rel + ':Server.wait_closed')
 
 
+def private_closure(tree, fn):
+    """fn and the module-level private functions it reaches through calls (extract-function is invisible)"""
+    functions = {d.name: d for d in tree.body if isinstance(d, (ast.FunctionDef, ast.AsyncFunctionDef))}
+    seen, todo = [], [fn]
+    while todo:
+        f = todo.pop()
+        if f in seen:
+            continue
+        seen.append(f)
+        for c in ast.walk(f):
+            if isinstance(c, ast.Call) and isinstance(c.func, ast.Name) and c.func.id.startswith('_') \
+                    and c.func.id in functions:
+                todo.append(functions[c.func.id])
+    return seen
+
+
 def check_request_handler(tree, checked):
     fn = func_node(tree, 'request_handler')
     body = clean_body(fn.body)
@@ -620,30 +684,42 @@ def check_request_handler(tree, checked):
          and isinstance(fin[0].value.func, ast.Name) and not fin[0].value.args, 'request_handler finally: release_stream()')
     rel_name = fin[0].value.func.id
     need(rel_name in [a.arg for a in fn.args.args], 'the finally clause calls the release callback parameter')
+    swallow = ('BaseException', 'asyncio.CancelledError', 'CancelledError')
     for h in t.handlers:
-        need(h.type is not None and ast.unparse(h.type) not in ('BaseException', 'asyncio.CancelledError', 'CancelledError'),
+        need(h.type is not None and ast.unparse(h.type) not in swallow,
              'request_handler outer handlers must let CancelledError through')
-    # the user function is awaited inside `with <deadline ctx>, <W>`; on every path W is a fresh Wrapper or
-    # DeadlineWrapper that was stored on the protocol stream (`<stream>.wrapper = W`) before the with-block --
-    # wherever that is written (in place, in both branches, after them, in a private helper)
-    withs = [w for w in ast.walk(t) if isinstance(w, ast.With)
-             and any(isinstance(s, ast.Expr) and isinstance(s.value, ast.Await) and 'method_func' in ast.unparse(s.value)
-                     for s in clean_body(w.body))]
-    need(len(withs) == 1, 'one with-block around the user function')
-    w = withs[0]
-    need(all(isinstance(i.context_expr, ast.Name) for i in w.items) and w.items, 'with items are names')
+    # the user function is awaited inside `with <deadline ctx>, <W>` -- in request_handler itself or in a
+    # private function it calls; on every path W is a fresh Wrapper or DeadlineWrapper that was stored on the
+    # protocol stream (`<stream>.wrapper = W`) before the with-block -- wherever that is written (in place, in
+    # both branches, after them, in a private helper)
+    found = []
+    for f in private_closure(tree, fn):
+        for w in ast.walk(f):
+            if isinstance(w, ast.With) and any(
+                    isinstance(s, ast.Expr) and isinstance(s.value, ast.Await) and isinstance(s.value.value, ast.Call)
+                    and isinstance(s.value.value.func, ast.Name) and not s.value.value.func.id.startswith('_')
+                    and len(s.value.value.args) == 1 for s in clean_body(w.body)[-1:]) \
+                    and len(w.items) >= 1 and all(isinstance(i.context_expr, ast.Name) for i in w.items) \
+                    and any('recv_request' in ast.unparse(x) for x in w.body):
+                found.append((f, w))
+    need(len(found) == 1, 'one with-block around the user function (found %d)' % len(found))
+    f, w = found[0]
     wname = w.items[-1].context_expr.id
-    # the block that holds the try-statement around that with-block, up to that statement
+    # every try statement around that with-block (in its function) lets CancelledError through; the innermost
+    # one tells where the preparation ends
+    tries = [c for c in ast.walk(f) if isinstance(c, ast.Try) and any(x is w for x in ast.walk(c))
+             and any(x is w for b in [c.body] for y in b for x in ast.walk(y))]
+    for c in tries:
+        for h in c.handlers:
+            need(h.type is not None and ast.unparse(h.type) not in swallow, 'a handler around the user function swallows CancelledError')
+    inner = [c for c in tries if not any(d is not c and any(x is d for x in ast.walk(c)) for d in tries)]
+    anchor = inner[0] if inner else w
     holder = None
-    for n in ast.walk(t):
+    for n in ast.walk(f):
         for fld, val in ast.iter_fields(n):
-            if isinstance(val, list):
-                for k, c in enumerate(val):
-                    if isinstance(c, ast.Try) and any(x is w for x in ast.walk(c)) and c is not t \
-                            and not any(isinstance(y, ast.Try) and y is not c and any(x is w for x in ast.walk(y))
-                                        for y in ast.walk(c)):
-                        holder = (val, k)
-    need(holder is not None, 'the with-block sits in an inner try statement')
+            if isinstance(val, list) and any(c is anchor for c in val):
+                holder = (val, [k for k, c in enumerate(val) if c is anchor][0])
+    need(holder is not None, 'the block holding the with-block')
     pre = clean_body(holder[0][:holder[1]])
     ctx = Ctx(tree, None, {})
     paths = run(ctx, pre, [Path()])
@@ -662,6 +738,40 @@ def check_request_handler(tree, checked):
     checked.append('grpclib/server.py:request_handler')
 
 
+def returned_callable(tree, cls_name, fn):
+    """the function a method returns as a callback, with the arguments already bound: a nested def (keyword
+    defaults are bound values), functools.partial(f, a, b..) of a nested def / method / module function, or a
+    bound method -> (FunctionDef, {parameter: bound expression})"""
+    rets = [r.value for r in ast.walk(fn) if isinstance(r, ast.Return) and r.value is not None
+            and not any(r in ast.walk(d) for d in fn.body if isinstance(d, (ast.FunctionDef, ast.AsyncFunctionDef)))]
+    need(len(rets) == 1, '%s returns one callback' % fn.name)
+    val, args, kwargs = rets[0], [], {}
+    if isinstance(val, ast.Call) and ast.unparse(val.func) in ('partial', 'functools.partial') and val.args:
+        args, kwargs = list(val.args[1:]), {k.arg: k.value for k in val.keywords}
+        val = val.args[0]
+    nested = {d.name: d for d in fn.body if isinstance(d, (ast.FunctionDef, ast.AsyncFunctionDef))}
+    cls = class_node(tree, cls_name)
+    methods = {d.name: d for d in cls.body if isinstance(d, (ast.FunctionDef, ast.AsyncFunctionDef))}
+    functions = {d.name: d for d in tree.body if isinstance(d, (ast.FunctionDef, ast.AsyncFunctionDef))}
+    if isinstance(val, ast.Name) and val.id in nested:
+        target, params = nested[val.id], [a.arg for a in nested[val.id].args.args]
+    elif isinstance(val, ast.Attribute) and isinstance(val.value, ast.Name) and val.value.id == 'self' and val.attr in methods:
+        target, params = methods[val.attr], [a.arg for a in methods[val.attr].args.args][1:]
+    elif isinstance(val, ast.Name) and val.id in functions:
+        target, params = functions[val.id], [a.arg for a in functions[val.id].args.args]
+    else:
+        raise Unsupported('C09 facts: callback returned by %s: %s' % (fn.name, ast.unparse(val)[:80]))
+    bound = dict(zip(params, args))
+    bound.update(kwargs)
+    a = target.args
+    for p, d in zip([x.arg for x in a.args][len(a.args) - len(a.defaults):], a.defaults):
+        bound.setdefault(p, d)
+    for p, d in zip([x.arg for x in a.kwonlyargs], a.kw_defaults):
+        if d is not None:
+            bound.setdefault(p, d)
+    return target, bound
+
+
 def check_reset_and_release(tree, checked):
     ps = paths_of(tree, 'EventsProcessor', 'process_stream_reset', {})
     known = [p for p in ps if any('.__terminated__(' in e for e in p[1])]
@@ -678,9 +788,8 @@ def check_reset_and_release(tree, checked):
              any(a.endswith(' is None') and v for a, v in cond.items()), 'process_stream_reset, unknown stream: %r' % (eff,))
     need(len({tuple(e for e in eff if 'streams_failed' in e) for _, eff, _ in ps}) == 1, 'streams_failed on every path')
     reg = func_node(tree, 'register', 'EventsProcessor')
-    inner = [s for s in reg.body if isinstance(s, ast.FunctionDef)]
-    need(len(inner) == 1, 'register defines the release callback')
-    ps = paths_of(tree, 'EventsProcessor', None, {}, fn=inner[0])
+    fn, bound = returned_callable(tree, 'EventsProcessor', reg)
+    ps = paths_of(tree, 'EventsProcessor', None, {}, fn=fn, bound=bound)
     need(ps and all(any('.pop(' in e and e.endswith(', None)') for e in eff) for _, eff, _ in ps),
          'release pops the stream with a default')
     gone = [p for p in ps if any(a.endswith(' is None') and v for a, v in p[0].items())]
